@@ -54,6 +54,7 @@ var states = []string{
 	"multi-block",   // 2-block message: block 1 acknowledged, block 2 not yet granted
 	"mixed",         // one reply outstanding AND a later send bidding
 	"recv-busy",     // the peer is in the middle of transmitting a block; a sync and an async send were started meanwhile
+	"inbound-half",  // the peer has transmitted (and got acknowledged) block 1 of a 2-block message; it sends block 2 on the NEXT link
 	// host role only: the library's ENQ meets the equipment's ENQ, the host yields, the block it then
 	// receives reaches a slow handler (inline on the line engine, in the middle of the unfinished
 	// send); a second send queues up; the generation is ended by Close() — not by the peer
@@ -183,6 +184,7 @@ func run(t *testing.T, cs caseSpec, onLeak func(string)) (res result) {
 			res.fail = &struct{ key, desc string }{key, fmt.Sprintf("%+v: ", cs) + fmt.Sprintf(f, a...)}
 		}
 	}
+	var inboundTail []byte
 	e2.Run(t, func(w *e2.World) {
 		w.OnLeak = onLeak
 		x := &exec{w: w, cs: cs, acceptedCh: make(chan struct{}, 4), listenedCh: make(chan struct{}, 4), peerSys: 0x60000000}
@@ -303,6 +305,12 @@ func run(t *testing.T, cs caseSpec, onLeak func(string)) (res result) {
 			x.ep.Write(pb[:6]...)
 			x.send("sync", "g1-r", false, secs2.A("g1-r"))
 			x.send("async", "g1-ra", false, secs2.A("g1-ra"))
+		case "inbound-half":
+			hb := e4.Split(e4.Header{Device: device, R: !cs.Equip, Stream: 6, Function: 11, System: [4]byte{0x61, 0, 0, 7}}, append([]byte{0x22, 0x01, 0x2C}, make([]byte, 300)...))
+			if ans, ok, err := x.ep.SendBlock(hb[0].Marshal()); err != nil || !ok || ans != e4.ACK {
+				step = fmt.Sprintf("block 1 of the inbound message: answer %x present=%v err=%v", ans, ok, err)
+			}
+			inboundTail = hb[1].Marshal()
 		case "multi-block":
 			x.send("sync", "g1-m", false, secs2.A(long))
 			blk, s := x.grantOne()
@@ -411,6 +419,33 @@ func run(t *testing.T, cs caseSpec, onLeak func(string)) (res result) {
 				w.Advance(gap)
 			}
 		}
+		if cs.State == "inbound-half" {
+			// the peer carries on where it was: block 2 (E-bit) of the message whose block 1 went over
+			// generation 1. Whatever the library answers, the two halves are not one message: block 1
+			// died with its connection, and nothing may be delivered
+			before := x.n.NDelivered()
+			_, got, err := x.ep.SendBlock(inboundTail)
+			if err != nil {
+				bad("line-after-reconnect", "the peer cannot transmit on generation 2: %v", err)
+				return
+			}
+			if !got {
+				w.Advance(gap)
+				x.ep.Answer() // ACK or NAK: either is an answer to a block that continues nothing
+			}
+			w.Advance(gap)
+			// (an S9 notice the equipment role may want to send about it is taken by the loop below)
+			if d := x.n.NDelivered() - before; d != 0 {
+				bad("stale-block:assembled-across-generations", "block 1 of a 2-block message was received on generation 1, block 2 on generation 2: %d message(s) were delivered to the handlers — a frame assembled from a dead connection's bytes", d)
+				return
+			}
+			for k := 0; k < 4 && x.ep.BidPending(); k++ {
+				if _, _, err := x.ep.RecvBlock(e4.ACK); err != nil {
+					break
+				}
+				w.Advance(gap)
+			}
+		}
 		if !watch(time.Second, "after the stale reply") {
 			return
 		}
@@ -464,7 +499,7 @@ func check(c *vfw.Ctx, t *testing.T, cs caseSpec) {
 func TestCheck(t *testing.T) {
 	vfw.Main(t, "C09", func(c *vfw.Ctx) {
 		c.Level("model_checking")
-		c.Rule("SECS-I part (E2, real secs1 connection, E4 peer; T3=30s, T5=2s, T1=100ms T2=300ms RTY=1): roles active/passive (thorough also host) x generation-1 state {W primary acknowledged and waiting for its reply; bidding unanswered; a synchronous send queued behind a stuck bid; two fire-and-forget sends queued behind a stuck bid; between block 1 and block 2 of a 2-block message; reply outstanding AND another send bidding; a synchronous and an asynchronous send started while the peer is in the middle of transmitting a block} + {host role: contention yield whose inbound block reaches a slow (4 s) handler, a second send queued, generation ended by Close(): both sends return within 1 s} x fault {peer close, peer reset}: after the reconnect every generation-1 call has returned within close-timeout + T2*(RTY+1) + T1 of the cut with a definite error (async: accepted), generation 2's socket carries no byte of a generation-1 message for 2 s idle, after a stale reply to the generation-1 primary, and after a fresh send; the fresh send is transmitted as the first block and returns nil")
+		c.Rule("SECS-I part (E2, real secs1 connection, E4 peer; T3=30s, T5=2s, T1=100ms T2=300ms RTY=1): roles active/passive (thorough also host) x generation-1 state {W primary acknowledged and waiting for its reply; bidding unanswered; a synchronous send queued behind a stuck bid; two fire-and-forget sends queued behind a stuck bid; between block 1 and block 2 of a 2-block message; the peer between block 1 (acknowledged) and block 2 of a 2-block INBOUND message, block 2 following on generation 2 (nothing may be delivered); reply outstanding AND another send bidding; a synchronous and an asynchronous send started while the peer is in the middle of transmitting a block} + {host role: contention yield whose inbound block reaches a slow (4 s) handler, a second send queued, generation ended by Close(): both sends return within 1 s} x fault {peer close, peer reset}: after the reconnect every generation-1 call has returned within close-timeout + T2*(RTY+1) + T1 of the cut with a definite error (async: accepted), generation 2's socket carries no byte of a generation-1 message for 2 s idle, after a stale reply to the generation-1 primary, and after a fresh send; the fresh send is transmitted as the first block and returns nil")
 		c.Assume("testing/synctest virtual time", "sim in-memory network", "E4 peer (peer/e4.go), reference block codec (ref/e4)", "message bodies carry generation tokens (g1-/g2-) that cannot occur in headers or checksums by construction of the scan (a false match would need the three bytes 'g1-' in a block header/checksum)")
 		if c.Replay != nil {
 			var cs caseSpec
